@@ -1,0 +1,75 @@
+//go:build verif
+
+// Contracts for package datamatrix, read by the govc verification-condition generator in /verif.
+// Comments only.
+
+package datamatrix
+
+//@ lemma scaleFit0(out int, n int, mult int)
+//@   property C14 C12
+//@   opt nia=on
+//@   requires n >= 1 && out >= n && 1 <= mult && mult <= out / n
+//@   ensures n * mult <= out
+//@ lemma divPos(out int, q int)
+//@   property C14 C12
+//@   opt nia=on
+//@   requires q >= 1 && out >= q
+//@   ensures out / q >= 1
+//@ lemma divOne(q int)
+//@   property C14 C12
+//@   opt nia=on
+//@   requires q >= 1
+//@   ensures q / q == 1
+//@ lemma mulSucc(a int, b int)
+//@   property C14 C12
+//@   opt nia=on
+//@   ensures (a + 1) * b == a * b + b
+//@ lemma mulMono(a int, b int, c int)
+//@   property C14 C12
+//@   opt nia=on
+//@   requires a <= b && c >= 0
+//@   ensures a * c <= b * c
+//@ lemma mulOne(a int)
+//@   property C14 C12
+//@   opt nia=on
+//@   ensures a * 1 == a
+
+//@ pred wfBYM(m *encoder.ByteMatrix) = m.width >= 1 && m.height >= 1 && len(m.bytes) == m.height && (forall y int :: 0 <= y && y < m.height ==> len(m.bytes[y]) == m.width)
+
+// Data Matrix: the requested size when the symbol fits in both directions, the bare symbol size otherwise;
+// every module block lies inside the image (SetRegion's error is discarded by the code, so it must never occur)
+//@ func convertByteMatrixToBitMatrix(matrix *encoder.ByteMatrix, reqWidth int, reqHeight int) (r *gozxing.BitMatrix)
+//@   property C14 C12
+//@   requires matrix != nil && wfBYM(matrix)
+//@   let mw = matrix.width
+//@   let mh = matrix.height
+//@   let small = reqHeight < mh || reqWidth < mw
+//@   let ow = max(reqWidth, mw)
+//@   let oh = max(reqHeight, mh)
+//@   use divPos(ow, mw)
+//@   use divPos(oh, mh)
+//@   use divOne(mw)
+//@   use divOne(mh)
+//@   use scaleFit0(ow, mw, min(ow / mw, oh / mh))
+//@   use scaleFit0(oh, mh, min(ow / mw, oh / mh))
+//@   ensures r != nil && gozxing.wfBM(r) && r.width == (small ? mw : reqWidth) && r.height == (small ? mh : reqHeight)
+//@   assert call(SetRegion, 0): multiple >= 1 && 0 <= outputX && outputX + multiple <= output.width && 0 <= outputY && outputY + multiple <= output.height
+//@   loop 0: invariant matrixWidth == mw && matrixHeight == mh && output != nil && gozxing.wfBM(output) && output.width == (small ? mw : reqWidth) && output.height == (small ? mh : reqHeight) && wfBYM(matrix)
+//@   loop 0: invariant multiple >= 1 && (small ==> multiple == 1 && leftPadding == 0 && topPadding == 0) && (!small ==> multiple == min(ow / mw, oh / mh) && leftPadding == (ow - mw * multiple) / 2 && topPadding == (oh - mh * multiple) / 2) && 0 <= leftPadding && 0 <= topPadding
+//@   loop 0: invariant 0 <= inputY && inputY <= mh && outputY == topPadding + inputY * multiple
+//@   loop 0: use mulSucc(inputY, multiple)
+//@   loop 0: use mulMono(inputY + 1, mh, multiple)
+//@   loop 0: use mulMono(0, inputY, multiple)
+//@   loop 0: use mulOne(mh)
+//@   loop 0: use mulOne(mw)
+//@   loop 0: decreases mh - inputY
+//@   loop 1: invariant matrixWidth == mw && matrixHeight == mh && output != nil && gozxing.wfBM(output) && output.width == (small ? mw : reqWidth) && output.height == (small ? mh : reqHeight) && wfBYM(matrix)
+//@   loop 1: invariant multiple >= 1 && (small ==> multiple == 1 && leftPadding == 0 && topPadding == 0) && (!small ==> multiple == min(ow / mw, oh / mh) && leftPadding == (ow - mw * multiple) / 2 && topPadding == (oh - mh * multiple) / 2) && 0 <= leftPadding && 0 <= topPadding
+//@   loop 1: invariant 0 <= inputY && inputY < mh && outputY == topPadding + inputY * multiple && 0 <= outputY && outputY + multiple <= output.height
+//@   loop 1: invariant len(matrix.bytes[inputY]) == mw
+//@   loop 1: invariant 0 <= inputX && inputX <= mw && outputX == leftPadding + inputX * multiple
+//@   loop 1: use mulSucc(inputX, multiple)
+//@   loop 1: use mulMono(inputX + 1, mw, multiple)
+//@   loop 1: use mulMono(0, inputX, multiple)
+//@   loop 1: use mulOne(mw)
+//@   loop 1: decreases mw - inputX
